@@ -19,6 +19,7 @@ type Layout struct {
 	WrapParams   bool // parameter lists may be wrapped over several lines
 	AnnoOwnLine  int  // chance in 10 that an annotation gets its own line
 	LeadingBlank int  // blank lines before the package line (0-3)
+	CRLF         bool // lines end in \r\n (a Windows checkout)
 }
 
 func RandomLayout(r *run.Rand, multiByte bool) Layout {
@@ -68,6 +69,10 @@ func (w *writer) s(text string) {
 }
 
 func (w *writer) nl() {
+	if w.lay.CRLF {
+		w.sb.WriteString("\r")
+		w.off++
+	}
 	w.sb.WriteString("\n")
 	w.line++
 	w.col = 0
